@@ -22,6 +22,7 @@
     val   identity of the pickle (all Blob pickles are byte-identical: `Blob.__getstate__` is None)
     src   tid of the record that physically holds the data (target of the back pointer chain;
           `_loadBackTxn` returns it and undo copies the blob file named after it)
+    back  tid of the record the back pointer names directly (0: the record carries its data)
 
   Protocol discipline (guaranteed by Connection + the transaction package, refused by the model
   with `misuse` instead of being followed into undefined territory): an oid is stored at most once
@@ -61,7 +62,8 @@ structure Rec where
   tid : Nat
   kind : Kind
   val : Nat
-  src : Nat
+  src : Nat      -- tid of the record that physically holds the data
+  back : Nat     -- tid of the record the back pointer names (one hop; 0 = no back pointer)
 deriving DecidableEq, Repr
 
 def Rec.key (r : Rec) : Key := (r.oid, r.tid)
@@ -174,7 +176,7 @@ def store (s : St) (oid : Nat) (val : Nat) (base : Nat) : St × List Ev × Out :
     else if conflicts s oid base then (failTxn s t, [], .err .conflict)
     else
       (setTxn s { t with staged := { oid := oid, tid := t.tid, kind := .plain, val := val,
-                                     src := t.tid } :: t.staged }, [], .ok)
+                                     src := t.tid, back := 0 } :: t.staged }, [], .ok)
 
 /-- `_blob_storeblob(oid, tid, blobfilename)`: rename the uncommitted file to its committed name and
     remember it as dirty.  `none` = the rename (and the copy fall-back) failed: file missing. -/
@@ -195,7 +197,7 @@ def storeBlob (s : St) (oid : Nat) (n : Nat) (base : Nat) (check : Bool) : St ×
     else if check ∧ conflicts s oid base then (failTxn s t, [], .err .conflict)
     else
       let t' := { t with staged := { oid := oid, tid := t.tid, kind := .blob, val := 0,
-                                     src := t.tid } :: t.staged }
+                                     src := t.tid, back := 0 } :: t.staged }
       match blobStoreBlob (setTxn s t') (oid, t.tid) n with
       | some (s', evs) => (s', evs, .ok)
       | none => (failTxn s t', [], .err .os)
@@ -240,23 +242,24 @@ def foreignAbort (s : St) : St × List Ev × Out := (s, [], .ok)
 /-! ### undo (FileStorage._txn_undo_write with the blob copy) -/
 
 /-- can the record `r` of the transaction being undone be undone?  (`_transactionalUndoRecord`:
-    it is current, or the current data equals the data being undone — for two Blob records that is
-    always so, their pickles are identical) -/
+    it is current, or the current record is a back pointer to it, or the current data equals the
+    data being undone — for two Blob records that is always so, their pickles are identical) -/
 def undoable (h : List Rec) (r : Rec) : Bool :=
   match curRec h r.oid with
   | none => false
   | some c =>
-    c.key = r.key ∨ (c.kind ≠ .uncreate ∧ r.kind ≠ .uncreate ∧ c.kind = r.kind ∧ c.val = r.val)
+    c.key = r.key ∨ (c.back = r.tid ∧ c.back ≠ 0) ∨
+      (c.kind ≠ .uncreate ∧ r.kind ≠ .uncreate ∧ c.kind = r.kind ∧ c.val = r.val)
 
 /-- the record undo writes for `r`: a copy of the previous revision, or an un-creation -/
 def undoRec (h : List Rec) (r : Rec) (tid : Nat) : Rec :=
   match prevRec h r.oid r.tid with
-  | none => { oid := r.oid, tid := tid, kind := .uncreate, val := 0, src := tid }
+  | none => { oid := r.oid, tid := tid, kind := .uncreate, val := 0, src := tid, back := 0 }
   | some p =>
     match p.kind with
-    | .blob => { oid := r.oid, tid := tid, kind := .blob, val := p.val, src := p.src }
-    | .plain => { oid := r.oid, tid := tid, kind := .plain, val := p.val, src := p.src }
-    | .uncreate => { oid := r.oid, tid := tid, kind := .uncreate, val := 0, src := tid }
+    | .blob => { oid := r.oid, tid := tid, kind := .blob, val := p.val, src := p.src, back := p.tid }
+    | .plain => { oid := r.oid, tid := tid, kind := .plain, val := p.val, src := p.src, back := p.tid }
+    | .uncreate => { oid := r.oid, tid := tid, kind := .uncreate, val := 0, src := tid, back := p.tid }
 
 structure UndoAcc where
   files : Files
@@ -317,12 +320,23 @@ def undo (s : St) (utid : Nat) : St × List Ev × Out :=
     pack time `T` -/
 def dropped (T : Nat) (drop : List Key) (r : Rec) : Bool := drop.contains r.key ∧ r.tid ≤ T
 
-/-- the history after the pack; back pointers into removed data are resolved (the data is copied
-    into the kept record), as are all back pointers of records up to the pack time -/
+/-- what pack does to the data pointer of a kept record: the data is copied into every record up to
+    the pack time and into records whose data-holding record is removed -/
+def adjSrc (T : Nat) (drop : List Key) (h : List Rec) (r : Rec) : Rec :=
+  if r.tid ≤ T ∨ h.any (fun q => q.key = (r.oid, r.src) ∧ dropped T drop q) then
+    { r with src := r.tid } else r
+
+/-- … and to its back pointer: packed records have none, later ones lose it with its target -/
+def adjBack (T : Nat) (drop : List Key) (h : List Rec) (r : Rec) : Rec :=
+  if r.tid ≤ T ∨ h.any (fun q => q.key = (r.oid, r.back) ∧ dropped T drop q) then
+    { r with back := 0 } else r
+
+def adj (T : Nat) (drop : List Key) (h : List Rec) (r : Rec) : Rec :=
+  adjBack T drop h (adjSrc T drop h r)
+
+/-- the history after the pack -/
 def packHist (T : Nat) (drop : List Key) (h : List Rec) : List Rec :=
-  (h.filter fun r => ¬ dropped T drop r).map fun r =>
-    if r.tid ≤ T ∨ h.any (fun q => q.key = (r.oid, r.src) ∧ dropped T drop q) then
-      { r with src := r.tid } else r
+  (h.filter fun r => ¬ dropped T drop r).map (adj T drop h)
 
 /-- fspack.copyDataRecords: every dropped record that is a blob record is tagged `oid+tid` in
     blobs/.removed (repair 7206ca4: never the bare oid) -/
